@@ -1,4 +1,5 @@
-(* C10, part (a), decoder side: every ZSTD_decompressStream call (buffered output mode, a fresh output buffer per call)
+(* C10, part (a), decoder side: every ZSTD_decompressStream call (round 3: buffered output or ZSTD_d_stableOutBuffer,
+   any output buffer {dst, size, pos}; round 1 had buffered output and a fresh buffer per call only)
    that is given input and output room consumes input, produces output, or reports an error - from every state reachable
    by any call history.  Proved with an invariant [DInv] of the state between calls that is derived from the loop's own
    stop conditions; block decoding stays abstract. *)
@@ -171,19 +172,26 @@ Definition StepOK (P : dparams) (cap : N) (l : lstate) (r : ires H) : Prop :=
   | IStop l' => StopOK cap l' /\ (Prog l -> Prog l')
   end.
 
-(* ---------- ZSTD_decompressContinueStream, buffered output ---------- *)
+(* ---------- ZSTD_decompressContinueStream, buffered and stable output ---------- *)
 Lemma cont_stream_ok P cap (l : lstate) src n l2 :
-  dp_stableOut P = false -> LI cap l -> z_stage (l_z l) <> ZFlush -> z_inPos (l_z l) = 0 ->
+  LI cap l -> z_stage (l_z l) <> ZFlush -> z_inPos (l_z l) = 0 ->
   cont_stream P l src n = MOk l2 ->
-  LI cap l2 /\ l_in l2 = l_in l /\ l_ip l2 = l_ip l /\ l_out l2 = l_out l /\ l_ocap l2 = l_ocap l /\
+  LI cap l2 /\ l_in l2 = l_in l /\ l_ip l2 = l_ip l /\ (l_out l <> [] -> l_out l2 <> []) /\
   (z_stage (l_z l2) = ZRead \/ z_stage (l_z l2) = ZFlush).
 Proof.
-  intros Hso [[Hc1 [Hc2 Hc3]] Hr] Hnf Hin Hcs. unfold DStreamModel.cont_stream in Hcs. rewrite Hso in Hcs.
-  destruct (dcontinue P (z_c (l_z l)) _ src n) as [[c' dec]|e]; cbn [mbind] in Hcs; [|discriminate].
-  destruct (andb (lenN dec =? 0) (negb (is_skip (z_c (l_z l))))); inversion Hcs; subst l2; clear Hcs; zsimp.
-  - unfold LI, CI, Room. zsimp. repeat split; auto; try discriminate; intros; auto.
-  - unfold LI, CI, Room. zsimp. repeat split; auto; try discriminate; intros; try lia; auto.
-    congruence.
+  intros [[Hc1 [Hc2 Hc3]] Hr] Hnf Hin Hcs. unfold DStreamModel.cont_stream in Hcs.
+  destruct (dp_stableOut P).
+  - (* stable output: the block is decoded straight into the caller's buffer, no flush stage *)
+    destruct (dcontinue P (z_c (l_z l)) _ src n) as [[c' dec]|e]; cbn [mbind] in Hcs; [|discriminate].
+    inversion Hcs; subst l2; clear Hcs. cbn [fst snd]. zsimp.
+    unfold LI, CI, Room. zsimp. repeat split; auto; try discriminate; intros; auto.
+    + apply app_eq_nil in H0. destruct H0 as [Ho1 Ho2]. rewrite Ho2. change (lenN (@nil N)) with 0. rewrite N.sub_0_r. apply Hr. exact Ho1.
+    + intros E. apply app_eq_nil in E. tauto.
+  - destruct (dcontinue P (z_c (l_z l)) _ src n) as [[c' dec]|e]; cbn [mbind] in Hcs; [|discriminate].
+    destruct (andb (lenN dec =? 0) (negb (is_skip (z_c (l_z l))))); inversion Hcs; subst l2; clear Hcs; zsimp.
+    + unfold LI, CI, Room. zsimp. repeat split; auto; try discriminate; intros; auto.
+    + unfold LI, CI, Room. zsimp. repeat split; auto; try discriminate; intros; try lia; auto.
+      congruence.
 Qed.
 
 
@@ -224,9 +232,9 @@ Qed.
 
 (* ---------- zdss_load ---------- *)
 Lemma iter_load_ok P cap (l : lstate) :
-  dp_stableOut P = false -> LI cap l -> z_stage (l_z l) = ZLoad -> StepOK P cap l (iter_load P l).
+  LI cap l -> z_stage (l_z l) = ZLoad -> StepOK P cap l (iter_load P l).
 Proof.
-  intros Hso [[Hc1 [Hc2 Hc3]] Hr] Hst.
+  intros [[Hc1 [Hc2 Hc3]] Hr] Hst.
   assert (Hoe : z_outStart (l_z l) = z_outEnd (l_z l)) by (apply Hc1; rewrite Hst; discriminate).
   unfold DStreamModel.iter_load. cbv zeta.
   destruct (andb _ _); [exact I|].
@@ -242,8 +250,8 @@ Proof.
     + unfold l', Prog. zsimp. intros [Hp|Hp]; [left; lia|right; exact Hp].
   - match goal with |- context [cont_stream P ?x ?b ?n] => destruct (cont_stream P x b n) as [l2|e] eqn:Ec end; [|exact I].
     apply cont_stream_ok with (cap := cap) in Ec; zsimp; try assumption; try (rewrite Hst; discriminate); try reflexivity.
-    + destruct Ec as (HL & Hi & Hp & Ho & Hoc & _). cbn [StepOK]. split; [exact HL|].
-      unfold Prog. rewrite Hp, Ho. intros [Hq|Hq]; [left; lia|right; exact Hq].
+    + destruct Ec as (HL & Hi & Hp & Ho & _). cbn [StepOK]. split; [exact HL|].
+      unfold Prog. rewrite Hp. zsimp. intros [Hq|Hq]; [left; lia|right; exact (Ho Hq)].
     + unfold LI, CI, Room. zsimp. rewrite Hst. repeat split; intros; try discriminate; auto;
         try (match goal with Hx : _ <> _ |- _ => exfalso; apply Hx; reflexivity end).
 Qed.
@@ -251,9 +259,9 @@ Qed.
 
 (* ---------- zdss_read ---------- *)
 Lemma iter_read_ok P cap (l : lstate) :
-  dp_stableOut P = false -> LI cap l -> z_stage (l_z l) = ZRead -> StepOK P cap l (iter_read P l).
+  LI cap l -> z_stage (l_z l) = ZRead -> StepOK P cap l (iter_read P l).
 Proof.
-  intros Hso HL Hst. pose proof HL as [[Hc1 [Hc2 Hc3]] Hr].
+  intros HL Hst. pose proof HL as [[Hc1 [Hc2 Hc3]] Hr].
   assert (Hoe : z_outStart (l_z l) = z_outEnd (l_z l)) by (apply Hc1; rewrite Hst; discriminate).
   assert (Hin : z_inPos (l_z l) = 0) by (apply Hc3; rewrite Hst; discriminate).
   unfold DStreamModel.iter_read. cbv zeta.
@@ -266,13 +274,13 @@ Proof.
     destruct (next_with_input (z_c (l_z l)) (lenN (l_in l)) <=? lenN (l_in l)) eqn:E1.
     + match goal with |- context [cont_stream P ?x ?b ?n] => destruct (cont_stream P x b n) as [l1|e] eqn:Ec end; [|exact I].
       apply cont_stream_ok with (cap := cap) in Ec; try assumption; try (rewrite Hst; discriminate).
-      destruct Ec as ([HCI HRm] & Hi & Hp & Ho & Hoc & _). cbn [StepOK]. split.
+      destruct Ec as ([HCI HRm] & Hi & Hp & Ho & _). cbn [StepOK]. split.
       * split; [exact HCI|]. unfold Room in *. zsimp. exact HRm.
-      * unfold Prog. zsimp. rewrite Hp, Ho. intros [Hq|Hq]; [left; lia|right; exact Hq].
+      * unfold Prog. zsimp. rewrite Hp. intros [Hq|Hq]; [left; lia|right; exact (Ho Hq)].
     + destruct (lenN (l_in l) =? 0) eqn:E2.
       * apply N.eqb_eq in E2. rewrite E2 in E0. cbn [StepOK]. split; [|tauto].
         unfold StopOK. split; [exact HL|]. rewrite Hst. apply nwi_pos_of_0. exact E0.
-      * pose proof (iter_load_ok P cap (l_setz l (z_set_stage (l_z l) ZLoad)) Hso) as Hld.
+      * pose proof (iter_load_ok P cap (l_setz l (z_set_stage (l_z l) ZLoad))) as Hld.
         assert (HL' : LI cap (l_setz l (z_set_stage (l_z l) ZLoad))).
         { unfold LI, CI, Room. zsimp. repeat split; intros; try discriminate; try congruence; auto;
             try (match goal with Hx : _ <> _ |- _ => exfalso; apply Hx; reflexivity end). }
@@ -286,9 +294,9 @@ Proof. intros Hp. destruct r; cbn [StepOK]; tauto. Qed.
 
 (* ---------- zdss_loadHeader ---------- *)
 Lemma iter_lh_ok P cap inp0 (l : lstate) :
-  dp_stableOut P = false -> LI cap l -> z_stage (l_z l) = ZLoadHeader -> StepOK P cap l (iter_loadHeader P inp0 l).
+  LI cap l -> z_stage (l_z l) = ZLoadHeader -> StepOK P cap l (iter_loadHeader P inp0 l).
 Proof.
-  intros Hso HL Hst. pose proof HL as [[Hc1 [Hc2 Hc3]] Hr].
+  intros HL Hst. pose proof HL as [[Hc1 [Hc2 Hc3]] Hr].
   assert (Hoe : z_outStart (l_z l) = z_outEnd (l_z l)) by (apply Hc1; rewrite Hst; discriminate).
   assert (Hin : z_inPos (l_z l) = 0) by (apply Hc3; rewrite Hst; discriminate).
   unfold DStreamModel.iter_loadHeader. cbv zeta.
@@ -316,24 +324,24 @@ Proof.
           try (match goal with Hx : _ <> _ |- _ => exfalso; apply Hx; reflexivity end).
         apply app_eq_nil in H0. destruct H0 as [Ho1 ->]. change (lenN (@nil N)) with 0. rewrite N.sub_0_r. apply Hr. exact Ho1.
       * intros _. left. zsimp. exact Hcs.
-    + rewrite Hso. cbn [andb].
+    + match goal with |- StepOK P cap l (if ?b then IErr EdstSize_tooSmall else _) => destruct b end; [exact I|].
       match goal with |- StepOK P cap l (match ?r with MOk _ => _ | MErr _ => _ end) => destruct r as [c1|e] eqn:Er end; [|exact I].
       match goal with |- context [if ?b then IErr EwindowTooLarge else _] => destruct b end; [exact I|].
       match goal with |- StepOK P cap l (iter_read P ?x) => set (lX := x) end.
       apply (StepOK_from P cap l lX); [unfold lX, Prog; zsimp; tauto|].
-      apply iter_read_ok; [exact Hso| |reflexivity].
+      apply iter_read_ok; [|reflexivity].
       unfold lX.
       match goal with |- context [if ?b then z_set_bufs _ _ _ _ else _] => destruct b end; unfold LI, CI, Room; zsimp;
         repeat split; intros; try discriminate; try congruence; auto.
 Qed.
 
 Lemma iter_ok P cap inp0 ex (l : lstate) :
-  dp_stableOut P = false -> LI cap l -> StepOK P cap l (iter P inp0 ex l).
+  LI cap l -> StepOK P cap l (iter P inp0 ex l).
 Proof.
-  intros Hso HL. unfold DStreamModel.iter. destruct (z_stage (l_z l)) eqn:Hst.
+  intros HL. unfold DStreamModel.iter. destruct (z_stage (l_z l)) eqn:Hst.
   - (* zdss_init *)
     apply (StepOK_from P cap l (l_setz l (z_reset (l_z l) ex))); [unfold Prog; zsimp; tauto|].
-    apply iter_lh_ok; [exact Hso| |reflexivity].
+    apply iter_lh_ok; [|reflexivity].
     destruct HL as [_ Hr]. unfold LI, CI, Room. zsimp. repeat split; intros; try discriminate; try congruence; auto.
   - apply iter_lh_ok; assumption.
   - apply iter_read_ok; assumption.
@@ -341,12 +349,12 @@ Proof.
   - apply iter_flush_ok; assumption.
 Qed.
 
-Lemma dloop_ok P cap inp0 ex : dp_stableOut P = false -> forall fuel (l : lstate),
+Lemma dloop_ok P cap inp0 ex : forall fuel (l : lstate),
   LI cap l -> StepOK P cap l (dloop fuel false P inp0 ex l) /\ (forall l', dloop fuel false P inp0 ex l <> ICont l').
 Proof.
-  intros Hso. induction fuel as [|f IH]; intros l HL.
+  induction fuel as [|f IH]; intros l HL.
   - cbn. split; [exact I|discriminate].
-  - cbn [DStreamModel.dloop]. pose proof (iter_ok P cap inp0 ex l Hso HL) as Hi.
+  - cbn [DStreamModel.dloop]. pose proof (iter_ok P cap inp0 ex l HL) as Hi.
     destruct (iter P inp0 ex l) as [l1|l1|z1 h1|e] eqn:Ei.
     + destruct Hi as [HL1 Hp1]. destruct (IH l1 HL1) as [Hd Hn]. split; [|exact Hn].
       apply (StepOK_from P cap l l1 _ Hp1 Hd).
@@ -367,14 +375,14 @@ Proof.
 Qed.
 
 Lemma first_iter_prog P cap inp ex (z : zstate) :
-  dp_stableOut P = false -> DInv P z -> inp <> [] -> 0 < cap ->
+  DInv P z -> inp <> [] -> 0 < cap ->
   match iter P inp ex (l_mk z inp 0 [] cap) with
   | ICont l' => Prog l'
   | IStop l' => Prog l' \/ HostageCase l'
   | _ => True
   end.
 Proof.
-  intros Hso [[Hc1 [Hc2 Hc3]] HD] Hinp Hcap.
+  intros [[Hc1 [Hc2 Hc3]] HD] Hinp Hcap.
   assert (Hlen : 0 < lenN inp) by (destruct inp; [congruence|rewrite lenN_cons; lia]).
   unfold DStreamModel.iter. zsimp.
   destruct (z_stage z) eqn:Hst.
@@ -445,32 +453,32 @@ Proof. reflexivity. Qed.
 Lemma LI_start cap P (z : zstate) inp : DInv P z -> LI cap (l_mk z inp 0 [] cap).
 Proof. intros [HC _]. split; [exact HC|]. unfold Room. zsimp. reflexivity. Qed.
 
-Lemma dloop_call P cap inp (z : zstate) :
-  dp_stableOut P = false -> DInv P z ->
-  match dloop (dfuel inp) false P inp (cap, 0) (l_mk z inp 0 [] cap) with
+Lemma dloop_call P cap inp ex (z : zstate) :
+  DInv P z ->
+  match dloop (dfuel inp) false P inp ex (l_mk z inp 0 [] cap) with
   | IErr _ => True
   | IEarly z' _ => EarlyOK P z'
   | IStop l' => StopOK cap l' /\ (inp <> [] -> 0 < cap -> Prog l' \/ HostageCase l')
   | ICont _ => False
   end.
 Proof.
-  intros Hso HD. set (l0 := l_mk z inp 0 [] cap).
+  intros HD. set (l0 := l_mk z inp 0 [] cap).
   pose proof (LI_start cap P z inp HD) as HL0. fold l0 in HL0.
-  destruct (dloop_ok P cap inp (cap, 0) Hso (dfuel inp) l0 HL0) as [Hok Hnc].
+  destruct (dloop_ok P cap inp ex (dfuel inp) l0 HL0) as [Hok Hnc].
   unfold dfuel in *. rewrite dloop_S in *.
-  pose proof (iter_ok P cap inp (cap, 0) l0 Hso HL0) as Hi.
-  destruct (iter P inp (cap, 0) l0) as [l1|l1|z1 h1|e] eqn:Ei.
+  pose proof (iter_ok P cap inp ex l0 HL0) as Hi.
+  destruct (iter P inp ex l0) as [l1|l1|z1 h1|e] eqn:Ei.
   - (* the loop goes on after the first iteration *)
     destruct Hi as [HL1 _].
-    destruct (dloop_ok P cap inp (cap, 0) Hso (S (S (S (2 * length inp)))) l1 HL1) as [Hok1 _].
-    destruct (dloop (S (S (S (2 * length inp)))) false P inp (cap, 0) l1) as [l2|l2|z2 h2|e2] eqn:Ed.
+    destruct (dloop_ok P cap inp ex (S (S (S (2 * length inp)))) l1 HL1) as [Hok1 _].
+    destruct (dloop (S (S (S (2 * length inp)))) false P inp ex l1) as [l2|l2|z2 h2|e2] eqn:Ed.
     + exact (Hnc l2 eq_refl).
     + cbn [StepOK] in Hok1. destruct Hok1 as [Hs Hp]. split; [exact Hs|]. intros Hinp Hcap. left. apply Hp.
-      pose proof (first_iter_prog P cap inp (cap, 0) z Hso HD Hinp Hcap) as Hf. fold l0 in Hf. rewrite Ei in Hf. exact Hf.
+      pose proof (first_iter_prog P cap inp ex z HD Hinp Hcap) as Hf. fold l0 in Hf. rewrite Ei in Hf. exact Hf.
     + exact Hok1.
     + exact I.
   - cbn [StepOK] in Hi. destruct Hi as [Hs _]. split; [exact Hs|]. intros Hinp Hcap.
-    pose proof (first_iter_prog P cap inp (cap, 0) z Hso HD Hinp Hcap) as Hf. fold l0 in Hf. rewrite Ei in Hf. exact Hf.
+    pose proof (first_iter_prog P cap inp ex z HD Hinp Hcap) as Hf. fold l0 in Hf. rewrite Ei in Hf. exact Hf.
   - exact Hi.
   - exact I.
 Qed.
@@ -483,19 +491,23 @@ Proof.
   destruct (z_stage (l_z l')); auto; try tauto.
 Qed.
 
-Theorem dstream_call P (z : zstate) inp cap :
-  dp_stableOut P = false -> DInv P z ->
-  let o := dstep P z inp cap 0 in
+(* any output mode (buffered or ZSTD_d_stableOutBuffer), any output buffer {dst, osize, opos}: room = osize - opos *)
+Theorem dstream_call_gen P (z : zstate) inp osize opos :
+  DInv P z ->
+  let o := dstep P z inp osize opos in
   match o_ret o with
   | MErr _ => True
-  | MOk _ => DInv P (o_z o) /\ (inp <> [] -> 0 < cap -> 0 < o_consumed o \/ o_out o <> [])
+  | MOk _ => DInv P (o_z o) /\ (inp <> [] -> opos < osize -> 0 < o_consumed o \/ o_out o <> [])
   end.
 Proof.
-  intros Hso HD. cbv zeta. pose proof (dloop_call P cap inp z Hso HD) as Hl.
+  intros HD. cbv zeta. set (cap := osize - opos).
+  pose proof (dloop_call P cap inp (osize, opos) z HD) as Hl.
   unfold DStreamModel.dstep, dstep_gen.
-  replace (cap <? 0) with false by (symmetry; apply N.ltb_ge; lia).
-  rewrite Hso. cbn [andb]. rewrite N.sub_0_r.
-  destruct (dloop (dfuel inp) false P inp (cap, 0) (l_mk z inp 0 [] cap)) as [l0|l'|z' h'|e]; try contradiction.
+  destruct (osize <? opos) eqn:Eso; [cbn [o_ret]; exact I|]. apply N.ltb_ge in Eso.
+  match goal with |- match o_ret (if ?b then _ else _) with MOk _ => _ | MErr _ => _ end => destruct b end; [cbn [o_ret]; exact I|].
+  fold cap.
+  assert (Hlt : opos < osize -> 0 < cap) by (unfold cap; lia).
+  destruct (dloop (dfuel inp) false P inp (osize, opos) (l_mk z inp 0 [] cap)) as [l0|l'|z' h'|e]; try contradiction.
   - (* the loop stopped *)
     destruct Hl as [Hs Hp].
     pose proof Hs as [[[Hc1 [Hc2 Hc3]] Hroom] Hst].
@@ -506,11 +518,11 @@ Proof.
     end.
     assert (HT : match o_ret TAIL with
                  | MErr _ => True
-                 | MOk _ => DInv P (o_z TAIL) /\ (inp <> [] -> 0 < cap -> 0 < o_consumed TAIL \/ o_out TAIL <> [])
+                 | MOk _ => DInv P (o_z TAIL) /\ (inp <> [] -> opos < osize -> 0 < o_consumed TAIL \/ o_out TAIL <> [])
                  end).
     { unfold TAIL. fold z1. fold consumed. fold out.
-    assert (Hprog : inp <> [] -> 0 < cap -> ~ HostageCase l' -> 0 < consumed \/ out <> []).
-    { intros Hi Hc Hnh. destruct (Hp Hi Hc) as [Hq|Hq]; [exact Hq|contradiction]. }
+    assert (Hprog : inp <> [] -> opos < osize -> ~ HostageCase l' -> 0 < consumed \/ out <> []).
+    { intros Hi Hc Hnh. destruct (Hp Hi (Hlt Hc)) as [Hq|Hq]; [exact Hq|contradiction]. }
     destruct (c_expected (z_c z1) =? 0) eqn:Ee.
     + apply N.eqb_eq in Ee.
       destruct (z_outEnd z1 =? z_outStart z1) eqn:Eo.
@@ -522,7 +534,7 @@ Proof.
               ** unfold DInv, CI. zsimp. split; [|right; reflexivity].
                  assert (Hnl : z_stage z1 <> ZLoad) by (intros E; unfold z1 in *; rewrite E in Hst; lia).
                  repeat split; intros; try discriminate; try congruence; auto.
-              ** intros Hi Hc. destruct (Hp Hi Hc) as [Hq|(_ & _ & _ & Hq & _)]; [exact Hq|].
+              ** intros Hi Hc. destruct (Hp Hi (Hlt Hc)) as [Hq|(_ & _ & _ & Hq & _)]; [exact Hq|].
                  exfalso. fold consumed in Hq. destruct inp; [congruence|]. rewrite lenN_cons in Ei. lia.
            ++ split; [apply (DInv_tail P cap l'); exact Hs|]. intros _ _. left. lia.
         -- cbn [o_ret o_z o_consumed o_out]. split; [apply (DInv_tail P cap l'); exact Hs|].
@@ -537,7 +549,7 @@ Proof.
            (* output is pending: the loop stopped in zdss_flush with the caller's buffer full *)
            assert (Hfl : z_stage z1 = ZFlush).
            { destruct (z_stage z1) eqn:E; try reflexivity; exfalso; apply Eo; symmetry; apply Hc1; discriminate. }
-           rewrite Hfl in Hst. destruct Hst as [_ Ho]. exact (Ho Hc).
+           rewrite Hfl in Hst. destruct Hst as [_ Ho]. exact (Ho (Hlt Hc)).
     + apply N.eqb_neq in Ee. cbn [o_ret o_z o_consumed o_out].
       match goal with |- context [if ?b then MErr (Eimpossible 7) else _] => destruct b end; [exact I|].
       split; [apply (DInv_tail P cap l'); exact Hs|].
@@ -551,6 +563,16 @@ Proof.
     + intros Hi _. left. destruct inp; [congruence|]. rewrite lenN_cons. lia.
   - exact I.
 Qed.
+
+(* the buffered-output statement of round 1: a fresh output buffer {dst, cap, 0} per call *)
+Theorem dstream_call P (z : zstate) inp cap :
+  dp_stableOut P = false -> DInv P z ->
+  let o := dstep P z inp cap 0 in
+  match o_ret o with
+  | MErr _ => True
+  | MOk _ => DInv P (o_z o) /\ (inp <> [] -> 0 < cap -> 0 < o_consumed o \/ o_out o <> [])
+  end.
+Proof. intros _ HD. exact (dstream_call_gen P z inp cap 0 HD). Qed.
 
 (* ---------- every call of every history ---------- *)
 Fixpoint all_progress (P : dparams) (z : zstate) (src : bytes) (calls : list dcall) : Prop :=
@@ -579,4 +601,52 @@ Qed.
 Corollary dstream_progress_from_new P src calls : dp_stableOut P = false -> all_progress P (z_new P) src calls.
 Proof. intros Hso. apply dstream_progress_history; [exact Hso|apply DInv_new]. Qed.
 
+(* ---------- round 3: every output mode, every output buffer ----------
+   A call presents [gc_in] bytes of the stream and the output buffer {dst, gc_osize, gc_opos}.  In buffered mode any
+   buffer may come with any call; with ZSTD_d_stableOutBuffer the caller has to come back with the buffer as the previous
+   call left it (size unchanged, pos advanced by what was produced) - a call that does not is refused with dstBuffer_wrong,
+   which is a failure, so the statement needs no hypothesis about the buffers. *)
+Record gcall := { gc_in : N; gc_osize : N; gc_opos : N }.
+
+Fixpoint all_progress_gen (P : dparams) (z : zstate) (src : bytes) (calls : list gcall) : Prop :=
+  match calls with
+  | [] => True
+  | k :: t =>
+      let inp := tk (gc_in k) src in
+      let o := dstep P z inp (gc_osize k) (gc_opos k) in
+      match o_ret o with
+      | MErr _ => True
+      | MOk _ => (inp <> [] -> gc_opos k < gc_osize k -> 0 < o_consumed o \/ o_out o <> []) /\
+                 all_progress_gen P (o_z o) (dr (o_consumed o) src) t
+      end
+  end.
+
+Theorem dstream_progress_history_gen P :
+  forall calls (z : zstate) src, DInv P z -> all_progress_gen P z src calls.
+Proof.
+  induction calls as [|k t IH]; intros z src HD; [exact I|].
+  cbn [all_progress_gen]. cbv zeta.
+  pose proof (dstream_call_gen P z (tk (gc_in k) src) (gc_osize k) (gc_opos k) HD) as Hc. cbv zeta in Hc.
+  destruct (o_ret (dstep P z (tk (gc_in k) src) (gc_osize k) (gc_opos k))); [|exact I].
+  destruct Hc as [HD' Hp]. split; [exact Hp|]. apply IH. exact HD'.
+Qed.
+
+Corollary dstream_progress_gen_from_new P src calls : all_progress_gen P (z_new P) src calls.
+Proof. apply dstream_progress_history_gen. apply DInv_new. Qed.
+
 End DProgress.
+
+(* ---------- the statement covers successful stable-output histories (trivial block decoder, frame 2 of C10StreamHints:
+   raw block "hi" + RLE last block 3 x 'x'): two calls on the one buffer {dst, 100, pos}; a call that comes back with
+   another position or size is refused ---------- *)
+Definition ex_so_params : dparams :=
+  {| dp_magicless := false; dp_maxWindow := dp_maxWindow default_dparams; dp_maxBlock := 0; dp_stableOut := true; dp_ignoreChecksum := false |}.
+Definition ex_so_step := dstep unit tt (fun h _ => h) (fun h _ _ => h) ex_cblock (fun _ => 0) ex_so_params.
+Definition ex_so_o1 := ex_so_step (z_new unit tt ex_so_params) (tk 11 ex_frame2) 100 0.
+Definition ex_so_o2 := ex_so_step (o_z ex_so_o1) (dr 11 (tk 15 ex_frame2)) 100 2.
+Example ex_stable_out :
+  (o_consumed ex_so_o1, o_out ex_so_o1, o_ret ex_so_o1) = (11, [104; 105], MOk 3) /\
+  (o_consumed ex_so_o2, o_out ex_so_o2, o_ret ex_so_o2) = (4, [120; 120; 120], MOk 0) /\
+  o_ret (ex_so_step (o_z ex_so_o1) (dr 11 (tk 15 ex_frame2)) 100 0) = MErr EdstBuffer_wrong /\
+  o_ret (ex_so_step (o_z ex_so_o1) (dr 11 (tk 15 ex_frame2)) 4 2) = MErr EdstBuffer_wrong.
+Proof. vm_compute. auto. Qed.
